@@ -41,30 +41,34 @@ pub struct Fragments {
 
 impl Fragments {
     pub fn new(data: Vec<u8>, fragment_size: u32) -> Self {
-        let fragment_size: u32 = if fragment_size == 0 {
-            data.len() as u32
+        let fragment_size: usize = if fragment_size == 0 {
+            data.len()
         } else {
-            fragment_size
+            fragment_size as usize
         };
 
-        let fragment_size = if fragment_size % 2 == 0 {
-            fragment_size
-        } else {
-            fragment_size + 1
-        };
+        // fragments must have an even length
+        let fragment_size = fragment_size + fragment_size % 2;
 
-        let number_of_fragments = (data.len() as f32 / fragment_size as f32).ceil() as u32;
+        if fragment_size == 0 {
+            // no data, no fragments
+            return Fragments {
+                fragments: Vec::new(),
+            };
+        }
+
+        let number_of_fragments = data.len().div_ceil(fragment_size);
 
         // Calculate the encapsulated size. If necessary pad the vector with zeroes so all the
         // chunks have the same fragment_size
         let mut data = data;
-        let encapsulated_size = (fragment_size * number_of_fragments) as usize;
+        let encapsulated_size = fragment_size * number_of_fragments;
         if encapsulated_size > data.len() {
             data.resize(encapsulated_size, 0);
         }
 
         let fragments = data
-            .chunks_exact(fragment_size as usize)
+            .chunks_exact(fragment_size)
             .map(|fragment| fragment.to_vec())
             .collect::<Vec<InMemFragment>>();
 
